@@ -138,22 +138,6 @@ example :
 
 /-! ## boundary values -/
 
-/-- the Number family: `Number`, `Magnitude`, and `Integer` for integer values -/
-def NumberLike (c : Cfg) (v : PyVal) : Prop :=
-  c.ptype = .number ∨ c.ptype = .magnitude ∨ (c.ptype = .integer ∧ v.isInt = true)
-
-theorem numberLike_iff (c : Cfg) (x : Ctx) (k : NumKind) (q : ExtRat) (h : NumberLike c (.num k q)) :
-    validate c x (.num k q) = .ok () ↔ InBounds c.bounds c.incl (.num k q) := by
-  have hcl : Clean c (.num k q) := by
-    unfold Clean; rcases h with h | h | ⟨h, _⟩ <;> simp [h, PyVal.isGenFn]
-  have hwf : WF c := by unfold WF; rcases h with h | h | ⟨h, _⟩ <;> simp [h]
-  rw [validate_ok_iff_sat c x _ hwf hcl]
-  unfold Sat
-  rcases h with h | h | ⟨h, hint⟩
-  · simp [h, NoneOk, DynamicOk, PyVal.isNone, PyVal.isCallable, PyVal.isNumber]
-  · simp [h, NoneOk, DynamicOk, PyVal.isNone, PyVal.isCallable, PyVal.isNumber]
-  · simp [h, NoneOk, DynamicOk, PyVal.isNone, PyVal.isCallable, hint]
-
 /-- A value sitting exactly on the lower hard bound (the upper side being
 satisfied) is accepted exactly when the lower side is inclusive. -/
 theorem boundary_accepted_iff_inclusive_lower (c : Cfg) (x : Ctx) (k k' : NumKind) (q : Rat)
